@@ -126,8 +126,11 @@ func (ex *Exec) VerifyFunc(ct *Contract, fn *ssa.Function) *FnReport {
 			Pos: fmt.Sprintf("%s:%d", cl.File, cl.Line)})
 	}
 	rep.NInvs = len(ct.Invs)
-	if ct.HasAssigns {
+	if ct.HasAssigns && !ct.FrameAssumed {
 		ex.frameObligations(ct, fr.entry, out)
+	}
+	if ct.FrameAssumed {
+		ex.trustedUsed["frame of "+ct.Key()+" (assigns "+strings.Join(ct.Assigns, ", ")+") is assumed, not verified"] = true
 	}
 	return rep
 }
